@@ -170,6 +170,12 @@ def judge(case, variant, lab, p, pc, G):
                 return label, (f"callback-after-dispose|{opname}.{cbname}", f[1])
     # (c)
     for s, i in p.open_after or ():
+        if p.live_after and any(not q.raw for q in p.live_after) and G is not None and s.owner <= G:
+            exempt_used[0] = True  # may be shared with a live group/window subscriber; (d) bounds its release
+            continue
+        if S is not None and s.owner <= S:
+            cont_used.add("subscribe_on")  # released by a scheduled action of this instant; (d) bounds its release
+            continue
         if (s.name, i) in p.in_progress:
             # its subscribe() had not returned when dispose() was called: nobody held a handle yet; it must go
             # as soon as the synchronous stack unwinds
@@ -178,11 +184,7 @@ def judge(case, variant, lab, p, pc, G):
                 return label, fail("open-after-dispose", s.owner, f"source {s.name} subscription #{i} {s.subs[i]} (subscribe() in progress at dispose) not closed when the stack unwound")
             cont_used.add("subscribe-in-progress")
             continue
-        if deferred_unsub(s.owner, s.subs[i][1] if s.subs[i][1] is not None else -1):
-            continue
-        if not (p.live_after and any(not q.raw for q in p.live_after) and G is not None and s.owner <= G):
-            return label, fail("open-after-dispose", s.owner, f"source {s.name} subscription #{i} {s.subs[i]} still open right after dispose() returned")
-        exempt_used[0] = True
+        return label, fail("open-after-dispose", s.owner, f"source {s.name} subscription #{i} {s.subs[i]} still open right after dispose() returned")
     # (d), (e)
     for s in lab.sources:
         po = getattr(s, "probe_owned", ())
@@ -305,8 +307,8 @@ def _factory_cases():
 def checks(tier):
     q = tier == "quick"
     return [
-        Check("pipelines", _run, strategy=cases(4 if q else 6), examples={"quick": 400, "thorough": 16 * 2000}, shards={"quick": 8, "thorough": 16}),
-        Check("inners", _run, strategy=cases_inner(4 if q else 6), examples={"quick": 400, "thorough": 16 * 2000}, shards={"quick": 8, "thorough": 16}),
-        Check("enders", _run, strategy=cases_forced(3 if q else 5), examples={"quick": 240, "thorough": 16 * 1000}, shards={"quick": 8, "thorough": 16}),
-        Check("factories", _run_factories, strategy=_factory_cases(), examples={"quick": 160, "thorough": 16 * 500}, shards={"quick": 8, "thorough": 16}),
+        Check("pipelines", _run, strategy=cases(4 if q else 6), examples={"quick": 320, "thorough": 16 * 2000}, shards={"quick": 8, "thorough": 16}),
+        Check("inners", _run, strategy=cases_inner(4 if q else 6), examples={"quick": 320, "thorough": 16 * 2000}, shards={"quick": 8, "thorough": 16}),
+        Check("enders", _run, strategy=cases_forced(3 if q else 5), examples={"quick": 200, "thorough": 16 * 1000}, shards={"quick": 8, "thorough": 16}),
+        Check("factories", _run_factories, strategy=_factory_cases(), examples={"quick": 120, "thorough": 16 * 500}, shards={"quick": 8, "thorough": 16}),
     ]
